@@ -122,6 +122,10 @@ class HTTPProtocol(BaseGopherProtocol):
         return self.getrenderstr(entry, url)
 
     def getrenderstr(self, entry, url):
+        # The link target goes into a double-quoted attribute.  It may come
+        # from served content (a URL: selector, a Host= line), so make sure it
+        # cannot close the attribute or the tag.
+        url = html.escape(url)
         retstr = "<TR><TD>"
         retstr += self.getimgtag(entry)
         retstr += "</TD>\n<TD>&nbsp;"
@@ -157,7 +161,9 @@ class HTTPProtocol(BaseGopherProtocol):
         if self.config.has_option("protocols.http.HTTPProtocol", "pagetopper"):
             retstr += re.sub(
                 "GOPHERURL",
-                self.entry.geturl(self.server.server_name, self.server.server_port),
+                html.escape(
+                    self.entry.geturl(self.server.server_name, self.server.server_port)
+                ),
                 self.config.get("protocols.http.HTTPProtocol", "pagetopper"),
             )
         retstr += "<H1>Gopher"
@@ -168,8 +174,8 @@ class HTTPProtocol(BaseGopherProtocol):
 
     def renderdirend(self, entry):
         retstr = '</TABLE><HR>\n[<A HREF="/">server top</A>]'
-        retstr += ' [<A HREF="%s">view with gopher</A>]' % entry.geturl(
-            self.server.server_name, self.server.server_port
+        retstr += ' [<A HREF="%s">view with gopher</A>]' % html.escape(
+            entry.geturl(self.server.server_name, self.server.server_port)
         )
         retstr += '<BR>Generated by <A HREF="https://www.github.com/michael-lazar/pygopherd">PyGopherd</A>'
         return retstr + "\n</BODY></HTML>\n"
